@@ -14,10 +14,17 @@ package astnormalization
 //@   at call jsonparser.Get: ghost g_looked = true
 //@   at call jsonparser.Get: ghost g_provided = result3 == nil
 //@   at call sjson.SetRawBytes: assert {a.provided.value.is.never.overwritten.by.the.default} g_looked && !g_provided
+//@   ghost var g_null bool = false
+//@   ghost var g_json int = 0
+//@   ghost var g_jsonLen int = 0
+//@   at call Document.VariableDefinitionDefaultValue: ghost g_null = result.Kind == ast.ValueKindNull
+//@   at call Document.ValueToJSON: ghost g_json = arr(result0)
+//@   at call Document.ValueToJSON: ghost g_jsonLen = len(result0)
+//@   at call sjson.SetRawBytes: assert {a.null.default.is.stored.as.it.is.not.wrapped.into.a.list} g_null ==> arr(arg2) == g_json && len(arg2) == g_jsonLen
 //@   modifies *, count(validationError)
 //@   safety no-bounds
 //@   loop 0:
-//@     invariant g_looked && !g_provided
+//@     invariant g_looked && !g_provided && !g_null
 
 // ----------------------------------------------------------------------------------------------
 // C04 (normalize, then validate): a variable is removed from the operation only if it is used nowhere. The collector
@@ -177,3 +184,77 @@ package astnormalization
 //@   at call variablesMappingVisitor.generateUnusedVariableMappingName: assert {names.are.generated.after.the.names.to.avoid.were.collected} g_collected
 //@   modifies *
 //@   safety none
+
+// ----------------------------------------------------------------------------------------------
+// C03, list coercion of variables: the path into the variables JSON under which coerced values are written belongs to
+// one variable of one request. It starts empty for every document - also when the walk of the previous document was
+// stopped between Enter- and LeaveVariableDefinition (a normalizer is reused across requests).
+//@ func inputCoercionForListVisitor.EnterDocument
+//@   requires i != nil
+//@   ensures {the.path.into.the.variables.starts.empty.for.every.request} len(i.query) == 0
+//@   ensures i.operation == operation && i.definition == definition
+//@   modifies i.operation, i.definition, i.query
+//@ func inputCoercionForListVisitor.LeaveVariableDefinition
+//@   requires i != nil
+//@   ensures {the.path.is.cleared.when.a.variable.is.done} len(i.query) == 0
+//@   modifies i.query
+
+// C03, injection of input field defaults into the items of a list: the callback is called once per item, in order; the
+// position it writes to ("[i]") has to advance with every item - also with the items it leaves alone (null, scalars) -
+// otherwise the defaults of a later item are written over an earlier one.
+//@ func inputFieldDefaultInjectionVisitor.jsonWalker$1
+//@   assumes {the.position.counts.the.items.of.a.json.array.it.does.not.wrap} 0 <= i && i < 1125899906842624
+//@   ghost var g_called bool = false
+//@   at call? inputFieldDefaultInjectionVisitor.processObjectOrListInput: assert {the.position.has.advanced.before.the.item.is.processed} i == old(i) + 1
+//@   at call? inputFieldDefaultInjectionVisitor.processObjectOrListInput: ghost g_called = true
+//@   at call? inputFieldDefaultInjectionVisitor.recursiveInjectInputFields: assert {the.position.has.advanced.before.the.item.is.processed} i == old(i) + 1
+//@   at call? inputFieldDefaultInjectionVisitor.recursiveInjectInputFields: ghost g_called = true
+//@   ensures {the.position.advances.with.every.item.also.with.the.ones.left.alone} !g_called ==> i == old(i) + 1
+//@   modifies *
+//@   safety none
+
+// C03, inlining the selections of an inline fragment on an interface into a concrete enclosing type: allowed only if
+// EVERY nested type-conditioned fragment fits the enclosing type (same type, or an interface it implements) - one
+// that does not fit would end up directly below a type it cannot apply to, which validation rejects.
+//@ func inlineSelectionsFromInlineFragmentsVisitor.couldInline
+//@   requires m != nil && m.operation != nil && m.definition != nil
+//@   ghost var g_nested int = 0 - 1
+//@   ghost var g_seen int = 0
+//@   ghost var g_bad bool = false
+//@   ghost var g_same bool = false
+//@   at call Document.SelectionSetInlineFragmentSelections: ghost g_nested = len(result)
+//@   at call Document.InlineFragmentTypeConditionName: ghost g_seen = ite(g_nested >= 0, g_seen + 1, g_seen)
+//@   at call bytes.Equal: ghost g_same = result
+//@   at call Document.TypeDefinitionContainsImplementsInterface: ghost g_bad = g_bad || (g_nested >= 0 && !g_same && !result)
+//@   ensures {inlined.only.if.every.nested.fragment.was.examined.and.none.failed.to.fit} result && g_nested > 0 ==> g_seen == g_nested && !g_bad
+//@   modifies *
+//@   safety no-bounds
+//@   loop 0:
+//@     invariant g_nested > 0 && g_seen == phi0 + 1 && !g_bad
+
+// C03, literal extraction reuses an extracted variable for an equal literal only at a position of exactly the same
+// type, nullability included: a variable of type T must not be used at a T! position.
+//@ func variablesExtractionVisitor.extractedVariablesContainsKey
+//@   requires v != nil && v.definition != nil
+//@   ghost var g_deep bool = false
+//@   at call Document.TypesAreEqualDeep: assert {the.type.of.this.position.is.compared.as.it.is.nullability.included} arg1 == v.definition.InputValueDefinitions[inputValueDefinition].Type && arg2 == v.extractedVariableTypeRefs[i]
+//@   at call Document.TypesAreEqualDeep: ghost g_deep = result
+//@   ensures {a.variable.is.reused.only.for.a.position.of.exactly.its.type} result ==> g_deep
+//@   modifies *
+//@   safety no-bounds
+//@   loop 0:
+//@     invariant true
+
+// C03, injection of input field defaults: the schema default of a field is written only where the value has no such
+// field; a field that is present - also with an explicit null - keeps what the client sent.
+//@ func inputFieldDefaultInjectionVisitor.recursiveInjectInputFields
+//@   requires v != nil && v.definition != nil
+//@   ghost itervar g_absent bool = false
+//@   ghost itervar g_def int = 0
+//@   at call errors.Is: ghost g_absent = result
+//@   at call Document.ValueToJSON: ghost g_def = arr(result0)
+//@   at call jsonparser.Set: assert {a.schema.default.is.written.only.for.an.absent.field.an.explicit.null.stays} arr(arg1) == g_def && g_def != 0 ==> g_absent
+//@   modifies *, count(*)
+//@   safety none
+//@   loop 0:
+//@     invariant true
